@@ -93,4 +93,16 @@ example : sim { ignoreStrType := true } (.list [.tuple [.str "x", .none], .str "
   have h3 : sim { ignoreStrType := true } .none .none = true := sim_of_leafSame _ rfl (by simp [sameGroup, typeName]) rfl
   simp [sim, simL, skipTypes, h1, h2, h3]
 
+/-- **Negative witness (finding F50).** Two keys of one dictionary whose cleaned forms collide are represented by the
+first in insertion order: the same dictionary re-inserted in the other order is compared through the other key. -/
+theorem C11_N_colliding_keys_order (o : OCfg) (k1 k2 v1 v2 : PyVal) (hc : cleaning o = true)
+    (hp1 : (o.base.ignorePrivate && isPrivate k1) = false) (hp2 : (o.base.ignorePrivate && isPrivate k2) = false)
+    (he : keyEq (cleanKey o k1) (cleanKey o k2) = true) (he' : keyEq (cleanKey o k2) (cleanKey o k1) = true) :
+    cleanKeys o [(k1, v1), (k2, v2)] = [(cleanKey o k1, k1)] ∧ cleanKeys o [(k2, v2), (k1, v1)] = [(cleanKey o k2, k2)] := by
+  have f1 : (!o.base.ignorePrivate || !isPrivate k1) = true := by
+    cases h1 : o.base.ignorePrivate <;> cases h2 : isPrivate k1 <;> simp_all
+  have f2 : (!o.base.ignorePrivate || !isPrivate k2) = true := by
+    cases h1 : o.base.ignorePrivate <;> cases h2 : isPrivate k2 <;> simp_all
+  constructor <;> simp [cleanKeys, hc, f1, f2, he, he']
+
 end DiffO
